@@ -154,13 +154,22 @@ class Env:
             return copy.deepcopy(self._pristine[cid])
         return self._cats[cid]
 
-    def renderer(self, rd):
+    @staticmethod
+    def _new_renderer(rd):
+        """rd is one of the renderer's dialect names, or 'cls:<name>' = the SQLAlchemy dialect *class* handed to the
+        constructor (the other accepted form)."""
         from mindsdb_sql.render.sqlalchemy_render import SqlalchemyRender
+        if rd.startswith('cls:'):
+            import importlib
+            return SqlalchemyRender(importlib.import_module('sqlalchemy.dialects.' + rd[4:]).dialect)
+        return SqlalchemyRender(rd)
+
+    def renderer(self, rd):
         if self.rnd_mode == 'op':
-            return SqlalchemyRender(rd)
+            return self._new_renderer(rd)
         r = self._rnd.get(rd)
         if r is None:
-            r = self._rnd[rd] = SqlalchemyRender(rd)
+            r = self._rnd[rd] = self._new_renderer(rd)
         return r
 
     def prebuild_renderers(self, dialects):
